@@ -128,6 +128,9 @@ SERIES_KINDS = ["plateau", "plateau", "shallow", "ends-mid-run", "before-start",
 BOUNDARY_PHASES = [0, 1, 79, 80, 81, 200, 359, 360, 361, -1, -360, 720]
 
 
+import shutil
+
+
 def prepare(ctx):
     """scratch copy of the examples: the polygon files of zuc/rue get two different levels (shipped: 99 99 = flat),
     their config.yml a phase outside 0..364; generated series (own ids) are appended to ex3's groundwater file.
@@ -152,6 +155,17 @@ def prepare(ctx):
                 poly[(proj, t[0])] = (hi_, lo_)
             out.append(ln)
         open(p, "w").write("\n".join(out))
+    # project ex3n = ex3 with the rotation starting in 1981 (the 1980 entries removed): a run that starts in a non-leap year
+    src, dst = os.path.join(ex, "project", "ex3"), os.path.join(ex, "project", "ex3n")
+    if not os.path.isdir(dst):
+        shutil.copytree(src, dst)
+        for fn in os.listdir(dst):
+            if "_ex3" in fn:
+                os.rename(os.path.join(dst, fn), os.path.join(dst, fn.replace("_ex3", "_ex3n")))
+        cf = os.path.join(dst, "crop_ex3n.txt")
+        rows = open(cf).read().split("\n")
+        open(cf, "w").write("\n".join(r for r in rows if not re.search(r"\s\d{4}1980\s+\d{4}1980\s", r)))
+    poly[("ex3n", "10001")] = poly[("ex3n", "10002")] = (10, 30)
     # a series for project zuc (GroundWaterFrom=2 on the batch line; dates ddmmyyyy)
     with open(os.path.join(ex, "project", "zuc", "gw_zuc.csv"), "w") as f:
         f.write("SID,DATE,Level\n001,01081980,%.1f\n001,15101980,%.1f\n001,01031981,%.1f\n001,01091981,%.1f\n" % tuple(round(rnd.uniform(6, 20), 1) for _ in range(4)))
@@ -234,6 +248,10 @@ def prepare(ctx):
              (zuc, "DE", "GroundWaterPhase=200 @config-phase=17 @phase=200", "phase 200 on the batch line")]
     for base, fmt, extra, why in sweep:
         add(base, fmt, extra, 1981, {"sweep": why, "series": "sweep" if "@gw=series" in extra or ("project=ex3" in base and "@gw=" not in extra) else None})
+    # a sinusoid run that starts in a NON-leap year and passes 31 December of a later leap year (day 366 of a year that follows a
+    # 365-day year: anything tabulated per year with the previous year's length is stale there; seeded C20-18)
+    add(ex3.replace("project=ex3 ", "project=ex3n "), "EN", "GroundWaterFrom=0 StartYear=1981 @gw=polygon @phase=80", 1985,
+        {"sweep": "polygon sinusoid from 1981 over 31.12.1984", "series": None})
     add(zuc, "DE", "@config-phase=%d @phase=%d" % (conf["zuc"], conf["zuc"]), endy, {"phase": conf["zuc"], "via": "config.yml"})
     add(rue, "DE", "@config-phase=%d @phase=%d" % (conf["rue"], conf["rue"]), endy, {"phase": conf["rue"], "via": "config.yml"})
     # the boundary phases, each from config.yml and from the command line (the config then holds another value)
